@@ -112,7 +112,7 @@ func HarnessC03Progress(n, size, api, kind int) {
 			ended = true
 			break
 		}
-		if api == 0 && size > 0 && kind != 2 { // (a bufio reader reads ahead of the demuxer)
+		if api == 0 && size > 0 && kind < 2 { // (a bufio reader reads ahead of the demuxer)
 			vassert("C03.progress.consumes", vr.pos == before+size)
 		}
 	}
